@@ -56,6 +56,10 @@ type xBeh struct {
 		Best    []int    `json:"best"`
 		Conv    bool     `json:"conv"`
 		Why     string   `json:"why"`
+		Served  *struct {
+			Sent bool  `json:"sent"`
+			Ids  []int `json:"ids"`
+		} `json:"served"`
 	} `json:"final"`
 }
 
@@ -69,6 +73,7 @@ type xNode struct {
 	byHash map[chainhash.Hash]int
 	best   int
 	asked  int
+	hdrs   [][]int // headers messages received from the engine
 }
 
 func (n *xNode) send(m wire.Message) error { return wire.WriteMessage(n.conn, m, wire.ProtocolVersion, n.netw) }
@@ -94,6 +99,18 @@ func (n *xNode) reader() {
 		case *wire.MsgSendHeaders:
 			n.mu.Lock()
 			n.got = append(n.got, xSent{T: "sendheaders", Loc: []int{}, Stop: -1})
+			n.mu.Unlock()
+		case *wire.MsgHeaders:
+			ids := []int{}
+			for _, h := range mm.Headers {
+				if id, ok := n.byHash[h.BlockHash()]; ok {
+					ids = append(ids, id)
+				} else {
+					ids = append(ids, -77)
+				}
+			}
+			n.mu.Lock()
+			n.hdrs = append(n.hdrs, ids)
 			n.mu.Unlock()
 		case *wire.MsgGetHeaders:
 			s := xSent{T: "gh", Stop: -1, Loc: []int{}}
@@ -533,6 +550,39 @@ func opSyncExp() error {
 				_ = node.send(headersMsg(proto(node.best, *rq)))
 				nonce++
 				node.barrier(nonce)
+			}
+			// the node asks the engine for headers (C13): everything after genesis
+			if b.Final.Served != nil && !node.isClosed() {
+				node.mu.Lock()
+				before := len(node.hdrs)
+				node.mu.Unlock()
+				gh := wire.NewMsgGetHeaders()
+				g := hashes[0]
+				_ = gh.AddBlockLocatorHash(&g)
+				if node.send(gh) == nil {
+					nonce++
+					node.barrier(nonce)
+					nonce++
+					node.barrier(nonce)
+					node.mu.Lock()
+					got := append([][]int(nil), node.hdrs[before:]...)
+					node.mu.Unlock()
+					res.Stats["asks"]++
+					want, have := "no answer", "no answer"
+					if b.Final.Served.Sent {
+						want = fmt.Sprintf("one headers message %v", append([]int{}, b.Final.Served.Ids...))
+					}
+					if len(got) == 1 {
+						have = fmt.Sprintf("one headers message %v", got[0])
+					} else if len(got) > 1 {
+						have = fmt.Sprintf("%d headers messages", len(got))
+					}
+					if have != want {
+						miss(len(b.Hist), "sync-serve", "getheaders(locator [genesis]) sent to the engine is answered with "+want, have)
+					} else if !b.Final.Served.Sent {
+						res.Stats["finding-witness:X1-getheaders-unanswered"]++
+					}
+				}
 			}
 			gotSt, gotTip := observe()
 			res.Stats["outcomes"]++
